@@ -729,11 +729,19 @@ func c14RoutedAsIs(c *Ctx, rule string) {
 				okB := true
 				elems := sliceElems(a, rscope)
 				if len(elems) == 0 {
+					// the batch may be kept in a field of a local record on its way to Walk
+					for _, sd := range resolveThroughLocals(a, rscope) {
+						if sd != a {
+							elems = append(elems, sliceElems(sd, rscope)...)
+						}
+					}
+				}
+				if len(elems) == 0 {
 					okB = false
 				}
 				for _, e := range elems {
 					same := false
-					for _, d := range deepDefs(e, rscope) {
+					for _, d := range resolveThroughLocals(e, rscope) {
 						if d == ssa.Value(msgParam) {
 							same = true
 						}
